@@ -322,4 +322,3 @@ func errOf(o Outcome) error {
 	}
 	return fmt.Errorf("panic: %v", o.Panic)
 }
-
